@@ -88,6 +88,11 @@ def cases(rng, tier):
     ]:
         yield ("einsum", (lambda spec=spec: lambda *a: mg.einsum(spec, *a))(), [V(s) for s in shapes], dict(spec=spec), None)
         yield ("einsum", (lambda spec=spec: lambda *a: mg.einsum(spec, *a, optimize=True))(), [V(s) for s in shapes], dict(spec=spec, optimize=True), None)
+    # one tensor at several operand positions of one einsum, labels permuted / identical, a further operand breaking the symmetry
+    yield ("einsum", lambda a, b: mg.einsum("ij,ji,j->", a, a, b), [V((3, 3)), V((3,))], dict(spec="ij,ji,j->", repeated_operand="permuted labels"), None)
+    yield ("einsum", lambda a, b: mg.einsum("ij,ij,j->", a, a, b), [V((3, 3)), V((3,))], dict(spec="ij,ij,j->", repeated_operand="identical labels"), None)
+    yield ("einsum", lambda a, b: mg.einsum("ij,ji->ij", a, a) * b, [V((3, 3)), V((3, 3))], dict(spec="ij,ji->ij", repeated_operand="permuted labels, weighted output"), None)
+    yield ("einsum", lambda a, b: mg.einsum("ijk,k,kji->i", a, b, a), [V((2, 3, 2)), V((2,))], dict(spec="ijk,k,kji->i", repeated_operand="positions 0 and 2"), None)
     for ordv in (None, 1, 2, 3, 0.5, 4.0):
         for shape, axes in [((3,), [None, 0, -1]), ((2, 3), [0, 1, -1]), ((2, 1, 3), [0, 2, -2])]:
             for ax in axes:
@@ -193,6 +198,10 @@ def cases(rng, tier):
         ("squeeze", lambda t: mg.squeeze(t[None], axis=i64(0))), ("stack", lambda t: mg.stack((t, t * 2.0), axis=i64(1))), ("concatenate", lambda t: mg.concatenate((t, t * 2.0), axis=i64(1))),
         ("getitem", lambda t: t[i64(1)]), ("getitem", lambda t: t[np.array(1)]), ("getitem", lambda t: t[i64(0), i64(1):i64(3)]), ("broadcast_to", lambda t: mg.broadcast_to(t, (i64(2), i64(2), i64(3)))),
         ("tile-like repeat", lambda t: mg.repeat(t, i64(2))), ("flatten", lambda t: t.flatten()), ("einsum", lambda t: mg.einsum("ij->j", t)),
+        # unsigned / 0-d / boolean representations of a shift (negating them must not wrap or iterate)
+        ("roll", lambda t: mg.roll(t, np.uint8(1))), ("roll", lambda t: mg.roll(t, np.uint8(1), axis=1)), ("roll", lambda t: mg.roll(t, np.uint16(2), axis=np.uint8(1))), ("roll", lambda t: mg.roll(t, np.array(1))),
+        ("roll", lambda t: mg.roll(t, np.array(2), axis=1)), ("roll", lambda t: mg.roll(t, np.array([1, 2], dtype=np.uint8), axis=(0, 1))), ("roll", lambda t: mg.roll(t, (np.uint8(1), np.uint8(2)), axis=(0, 1))),
+        ("roll", lambda t: mg.roll(t, np.uint64(1), axis=1)), ("roll", lambda t: mg.roll(t, True, axis=1)), ("repeat", lambda t: mg.repeat(t, np.uint8(2), axis=0)), ("repeat", lambda t: mg.repeat(t, np.array([1, 2], dtype=np.uint8), axis=0)),
     ]:
         yield (nm, fn, [V((2, 3))], dict(argument_types="numpy integers / integer arrays", call=nm), None)
 
